@@ -15,6 +15,7 @@ package main
 import (
 	"errors"
 	"fmt"
+	"math"
 	"math/rand"
 	"net"
 	"strconv"
@@ -147,7 +148,9 @@ func c10Sess(c *Ctx, cname string, key, iv []byte, spare, thr int, rd string, ac
 	var obs string
 	res := guardT(20*time.Second, func() {
 		ab, ba := &c10Half{}, &c10Half{}
-		if rd != "tcp" {
+		if rd == "pipe0" {
+			ab.pipe0, ba.pipe0 = true, true
+		} else if rd != "tcp" {
 			seed, _ := strconv.ParseInt(rd, 10, 64)
 			ab.frag = rand.New(rand.NewSource(seed))
 			ba.frag = rand.New(rand.NewSource(seed + 1))
@@ -417,8 +420,12 @@ func genC10b(c *Ctx) {
 	}
 
 	// 8. login-like sessions: the cipher is switched on in mid-stream
-	for _, thr := range []int{-1, 0, 1, 64, 256} {
-		for i := 0; i < c.N(14, 140); i++ {
+	for _, thr := range []int{-1, 0, 1, 64, 256, -2, -100, math.MinInt32} {
+		nSess := c.N(14, 140)
+		if thr < -1 {
+			nSess = c.N(5, 50)
+		}
+		for i := 0; i < nSess; i++ {
 			cn := "aes"
 			if i%8 == 7 {
 				cn = c10Ciphers[1+c.R.Intn(3)]
@@ -429,8 +436,11 @@ func genC10b(c *Ctx) {
 				iv = append([]byte(nil), key...)
 			}
 			rd := "tcp"
-			if c.R.Intn(4) == 0 {
+			switch c.R.Intn(8) {
+			case 0, 1:
 				rd = strconv.FormatInt(1+c.R.Int63n(1<<40), 10)
+			case 2, 3:
+				rd = "pipe0" // message transport: zero-length writes reach the reader
 			}
 			c10Sess(c, cn, key, iv, c10Spare(c, bs), thr, rd, c.R.Intn(2) == 0, c10Script(c, thr))
 		}
